@@ -7,7 +7,7 @@ from asyncfix.errors import EncodingError, FIXConnectionError, FIXError
 from asyncfix.journaler import Journaler
 from asyncfix.message import FIXMessage, MessageDirection
 from vlib.hyp import run_given
-from vlib.reffix import ref_check_frame, ref_get, ref_parse
+from vlib.reffix import reassemble, ref_check_frame, ref_get, ref_parse
 from vlib.runner import derive_seed
 from vlib.sess import Bench
 
@@ -126,7 +126,7 @@ def run_history(acc, role, n_out, n_in, logon_first, ops, maxlen, frame_hook=Non
 
         def settle(step, allow_own):
             nonlocal M, pos, stale_store
-            frames = [x for _, x in b.link.writers[b.side].written[pos:]]
+            frames = reassemble([x for _, x in b.link.writers[b.side].written[pos:]])
             pos = len(b.link.writers[b.side].written)
             new_in_step = 0
             for fr in frames:
